@@ -1,8 +1,9 @@
 """C14 - library deps, #includes and instantiated library classes always agree.
 
-Four independently derived sets must be equal for every generated script:
+Five independently derived sets must be equal for every generated script:
   L_script  what the generator knows it declared (devices that need a library)
   L_req     Reduino._collect_required_libraries(parse(src))
+  L_ini     lib_deps read back (configparser) from the platformio.ini that write_project() writes for L_req
   L_inc     headers on #include lines of the emitted text, mapped to libraries
   L_obj     classes of global object definitions in the emitted text (literals/comments skipped)
 and no library / include is listed twice; a sample of sketches is linked against the mock library headers.
@@ -22,7 +23,7 @@ LEVEL = "exploration"
 RULE = (
     "Hypothesis draws a multiset of devices: 0-3 servos (each in the prologue or at the top of the main-loop body), 0-2 parallel LCDs, "
     "0-2 I2C LCDs (prologue), other devices, helpers, lists, plus decoys that merely *mention* library names (identifiers like Servo_count, "
-    "strings like '#include <Servo.h>', comments). Oracle: equality of the four independently derived library sets, Wire.h accompanies the "
+    "strings like '#include <Servo.h>', comments). Oracle: equality of the five independently derived library sets (script, requested list, lib_deps of the written platformio.ini, #includes, instantiated classes), Wire.h accompanies the "
     "I2C header, nothing listed twice; every 3rd sketch is linked against the mock headers. Non-trivial = >=1 library-backed device or a decoy. "
     "distinct = distinct script."
 )
@@ -127,6 +128,24 @@ def evaluate(case, link=False):
         bad("includes-vs-declared-devices", expect, headers)
     if objs != expect:
         bad("instantiated-classes-vs-declared-devices", expect, objs)
+    # the request as PlatformIO sees it: lib_deps of the project file written for exactly these libraries
+    import configparser
+    import pathlib
+
+    from Reduino.toolchain.pio import write_project
+
+    with fb.Workdir("c14p") as pd:
+        try:
+            write_project(pathlib.Path(pd), cpp, "COM3", lib_deps=req)
+            cp = configparser.ConfigParser(interpolation=None)
+            cp.read(str(pathlib.Path(pd) / "platformio.ini"), encoding="utf-8")
+            ini_libs = [ln.strip() for sec in cp.sections() for ln in cp[sec].get("lib_deps", "").splitlines() if ln.strip()]
+        except Exception as e:  # noqa: BLE001 - reported as a failure of this link of the chain
+            ini_libs = [f"<{type(e).__name__}: {e}>"]
+    if len(ini_libs) != len(set(ini_libs)):
+        bad("ini-lib-listed-twice", "each library once in platformio.ini", ini_libs)
+    if sorted(set(ini_libs)) != expect:
+        bad("ini-lib_deps-vs-declared-devices", expect, ini_libs)
     if ("LiquidCrystal_I2C.h" in headers) != ("Wire.h" in headers):
         bad("wire-header", "Wire.h iff LiquidCrystal_I2C.h", headers)
     if link and not fails:
